@@ -1,13 +1,13 @@
 SPECIFICATION Spec
 CONSTANTS
-  FeatLo = 0 FeatHi = 4 OptSets <- OptWidthPlus LevSets <- LevSome
-  Orders = {"std", "rev", "mix", "featfirst"}
-  Casings = {"lower", "upper", "mixed"}
-  Encs = {"pm", "zo", "bool"}
-  NanCls = {"none", "first", "last", "two", "mid", "all", "charge"}
-  Chunks = {3, 19}
-  Workers = {2}
-  RowCls = {"two"}
+  FeatLo = 0 FeatHi = 2 OptSets <- OptWidth LevSets <- LevNone
+  Orders = {"std", "rev"}
+  Casings = {"lower", "upper"}
+  Encs = {"pm", "zo"}
+  NanCls = {"none", "first"}
+  Chunks = {19}
+  Workers = {1}
+  RowCls = {"one"}
   Errs = {"none"}
   NRows = 3 Rotate = FALSE RotK = 1
   AsIs_Remainder1Only = FALSE AsIs_ChargeDefaultName = TRUE
